@@ -63,7 +63,8 @@ func (cache *CacheLFU) GetCount(key string) (int, error) {
 
 func (cache *CacheLFU) Flush() {
 	clear(cache.keys)
-	clear(cache.entries)
+	// Empty the heap; clear() on a slice would only zero its elements and keep its length.
+	cache.entries = make([]*EntryLFU, 0)
 }
 
 func (cache *CacheLFU) Len() int {
